@@ -357,3 +357,33 @@ func (u *UJ8) UnmarshalJSON(b []byte) error { *u = UJ8(len(b)); return nil }
 type UT16 struct{ A, B uint8 }
 
 func (u *UT16) UnmarshalText(b []byte) error { u.A, u.B = uint8(len(b)), 1; return nil }
+
+// Text / JSON unmarshalers of every kind a null has to reset differently: slice, map, string,
+// array, []byte kind (pointer receivers).
+type UTSl []string
+
+func (u *UTSl) UnmarshalText(b []byte) error { *u = append((*u)[:0:0], string(b)); return nil }
+
+type UTMp map[string]int
+
+func (u *UTMp) UnmarshalText(b []byte) error { *u = UTMp{string(b): len(b)}; return nil }
+
+type UTBy []byte
+
+func (u *UTBy) UnmarshalText(b []byte) error { *u = append((*u)[:0:0], b...); return nil }
+
+type UTStr string
+
+func (u *UTStr) UnmarshalText(b []byte) error { *u = UTStr(b); return nil }
+
+type UTArr [3]uint8
+
+func (u *UTArr) UnmarshalText(b []byte) error { u[0] = uint8(len(b)); return nil }
+
+type UJSl []int
+
+func (u *UJSl) UnmarshalJSON(b []byte) error { *u = UJSl{len(b)}; return nil }
+
+type UJMp map[string]bool
+
+func (u *UJMp) UnmarshalJSON(b []byte) error { *u = UJMp{string(b): true}; return nil }
